@@ -175,6 +175,12 @@ pub fn cmd_minimise(args: &[String]) -> i32 {
                 while i < fam.base.threads[t].len() && r.runs < budget {
                     let mut c = fam.clone();
                     let end = (i + chunk).min(c.base.threads[t].len());
+                    // a Refill is what makes the memory hold the bytes the
+                    // model assumes: without it the episode is another one
+                    if c.base.threads[t][i..end].iter().any(|op| matches!(op, Op::Refill { .. })) {
+                        i += chunk;
+                        continue;
+                    }
                     c.base.threads[t].drain(i..end);
                     if same(&target, &r.run(&c)) {
                         fam = c;
@@ -261,6 +267,12 @@ pub fn cmd_minimise(args: &[String]) -> i32 {
         for b in 0..fam.base.bufs.len() {
             if r.runs >= budget {
                 break;
+            }
+            // buffers that share memory keep their length and place
+            let shared = matches!(fam.base.bufs[b].place, Place::Over(_))
+                || fam.base.bufs.iter().any(|x| x.place == Place::Over(b));
+            if shared {
+                continue;
             }
             loop {
                 let len = fam.base.bufs[b].bytes.len();
